@@ -34,7 +34,8 @@ CONSTANTS Keys, Values, MaxSizes,   \* as in LRU
           Alphabet,                 \* set of [op, k] records a thread may invoke
           InitConts,                \* set of initial container contents (sequences of entries)
           HasDispose,               \* TRUE: a dispose_func is installed
-          BigStep                   \* TRUE: Acq performs the whole critical section
+          BigStep,                  \* TRUE: Acq performs the whole critical section
+          Deviations                \* named departures from the code (off = {}): see Unguarded
 
 VARIABLES cont,      \* the concrete container (the code's OrderedDict), entries in recency order
           ref,       \* ghost: the sequential reference state (LRU.tla)
@@ -58,6 +59,13 @@ NONE == L!NONE
 KEYERROR == L!KEYERROR
 NullEntry == L!Entry(NONE, 0)
 NullRes == L!R(<<>>, NONE, {}, <<>>)
+
+\* Deviation "ClearWithoutLock": clear() is not guarded by the lock; it rebinds the mapping in one
+\* atomic statement instead of wiping it under the lock.  Its ghost linearization point is that
+\* statement (the most favourable choice), and still a whole clear() can land between the pop and
+\* the re-insert of a getter: the popped value is never disposed and survives a clear() that has
+\* returned.  Stage 1 requires TLC to refute the deviation with Linearizable and with ExactlyOnce.
+Unguarded(op) == op = "clear" /\ "ClearWithoutLock" \in Deviations
 
 CritPcs == {"g1", "g2", "s1", "s2", "s3", "s4", "d1", "l1", "k1", "c1", "c2"}
 Idle == [pc |-> "idle", op |-> NONE, k |-> NONE, v |-> 0, item |-> NullEntry, ev |-> <<>>, res |-> NONE, rk |-> {}, g |-> 0]
@@ -98,7 +106,9 @@ Micro(c, m, l) ==
       [] l.pc = "k1" ->      \* return set(self._container.keys())
            [cont |-> c, l |-> [l EXCEPT !.pc = "rel", !.res = "<keys>", !.rk = L!KeySet(c)]]
       [] l.pc = "c1" ->      \* values = list(self._container.values())
-           [cont |-> c, l |-> [l EXCEPT !.pc = "c2", !.ev = L!ValSeq(c)]]
+           IF Unguarded(l.op)   \* deviation: detached, self._container = self._container, OrderedDict()
+           THEN [cont |-> <<>>, l |-> [l EXCEPT !.pc = "rel", !.ev = L!ValSeq(c)]]
+           ELSE [cont |-> c, l |-> [l EXCEPT !.pc = "c2", !.ev = L!ValSeq(c)]]
       [] l.pc = "c2" ->      \* self._container.clear()
            [cont |-> <<>>, l |-> [l EXCEPT !.pc = "rel"]]
 
@@ -113,7 +123,7 @@ OpOf(l) == L!E(l.op, l.k, l.v)
 
 CanStart(t) == loc[t].pc = "idle"
 CanAcq(t) == loc[t].pc = "acq" /\ owner = 0
-CanRel(t) == loc[t].pc = "rel" /\ owner = t
+CanRel(t) == loc[t].pc = "rel" /\ (owner = t \/ Unguarded(loc[t].op))
 CanDisp(t, x) == loc[t].pc = "disp" /\ \E i \in 1..Len(loc[t].ev) : loc[t].ev[i] = x
 CanRet(t) == loc[t].pc = "ret"
 
@@ -123,13 +133,14 @@ StartOp(t, op, k, v) ==
     /\ UNCHANGED <<cont, ref, maxsize, initc, owner, gres, ins, dset, dup, gen, done>>
 
 \* entering the lock with locals l0 (pc = "acq"): the ghost reference takes the whole effect here
+GenAfter(r) == [k \in Keys |-> IF L!Has(ref, k) /\ (~L!Has(r.order, k) \/ r.order[L!Idx(r.order, k)].v # ref[L!Idx(ref, k)].v)
+                                THEN gen[k] + 1 ELSE gen[k]]
 AcqBody(t, l0) ==
-    LET r == L!Apply(ref, maxsize, OpOf(l0))                 \* linearization point (ghost)
-        left(k) == L!Has(ref, k) /\ (~L!Has(r.order, k) \/ r.order[L!Idx(r.order, k)].v # ref[L!Idx(ref, k)].v)
-        gen2 == [k \in Keys |-> IF left(k) THEN gen[k] + 1 ELSE gen[k]]
+    LET r == IF Unguarded(l0.op) THEN [gres[t] EXCEPT !.order = ref]       \* not yet: see Step
+             ELSE L!Apply(ref, maxsize, OpOf(l0))            \* linearization point (ghost)
+        gen2 == GenAfter(r)
         l1 == [l0 EXCEPT !.g = IF l0.k \in Keys THEN gen2[l0.k] ELSE 0] IN
-    /\ owner = 0
-    /\ owner' = t
+    /\ IF Unguarded(l0.op) THEN UNCHANGED owner ELSE (owner = 0 /\ owner' = t)
     /\ ref' = r.order
     /\ gres' = [gres EXCEPT ![t] = r]
     /\ gen' = gen2
@@ -143,13 +154,17 @@ AcqBody(t, l0) ==
 Acq(t) == CanAcq(t) /\ AcqBody(t, loc[t])
 
 Step(t) ==
-    /\ loc[t].pc \in CritPcs /\ owner = t
+    /\ loc[t].pc \in CritPcs /\ (owner = t \/ Unguarded(loc[t].op))
     /\ LET x == Micro(cont, maxsize, loc[t]) IN cont' = x.cont /\ loc' = [loc EXCEPT ![t] = x.l]
-    /\ UNCHANGED <<ref, maxsize, initc, owner, gres, ins, dset, dup, gen, done>>
+    /\ IF Unguarded(loc[t].op)        \* the unguarded clear takes its ghost effect at its one statement
+       THEN LET r == L!Apply(ref, maxsize, OpOf(loc[t])) IN
+            ref' = r.order /\ gres' = [gres EXCEPT ![t] = r] /\ gen' = GenAfter(r)
+       ELSE UNCHANGED <<ref, gres, gen>>
+    /\ UNCHANGED <<maxsize, initc, owner, ins, dset, dup, done>>
 
 Rel(t) ==
     /\ CanRel(t)
-    /\ owner' = 0
+    /\ owner' = IF Unguarded(loc[t].op) THEN owner ELSE 0
     /\ loc' = [loc EXCEPT ![t].pc = IF HasDispose /\ loc[t].ev # <<>> THEN "disp" ELSE "ret",
                           ![t].ev = IF HasDispose THEN @ ELSE <<>>]
     /\ UNCHANGED <<cont, ref, maxsize, initc, gres, ins, dset, dup, gen, done>>
